@@ -84,6 +84,15 @@ class EntryCounters:
         self._codes: dict = {}
         self._on = False
 
+    def watch_attr(self, owner, attr: str, name: str | None = None) -> None:
+        """Watches owner.attr if it exists; a renamed/removed internal function must
+        not kill the check (its counter requirement is then waived, see main._report)."""
+        fn = getattr(owner, attr, None)
+        if fn is None:
+            self.counts["__missing__." + (name or attr)] = 1
+            return
+        self.watch(name or attr, getattr(fn, "__wrapped__", fn))
+
     def watch(self, name: str, fn) -> None:
         code = getattr(fn, "__code__", None)
         if code is None and hasattr(fn, "__func__"):
@@ -110,9 +119,13 @@ class EntryCounters:
             self.counts[n] += 1
 
     def take(self) -> dict[str, int]:
-        out = {f"enter.{k}": v for k, v in self.counts.items()}
-        for k in self.counts:
-            self.counts[k] = 0
+        out = {}
+        for k, v in self.counts.items():
+            if k.startswith("__missing__."):
+                out["missing." + k[len("__missing__.") :]] = v
+            else:
+                out[f"enter.{k}"] = v
+                self.counts[k] = 0
         return out
 
 
